@@ -881,6 +881,12 @@ func (p *parser) parseAction(kind string) (Action, *SyntaxError) {
 			return Action{}, serr(ReasonBadUpdate, "%s needs a :value operand, got %q at %d", kind, v.text, v.pos)
 		}
 		p.next()
+		// the implementation parses the operand as a whole expression: an
+		// operator or a call after the :value is part of F-LOOSETOKENS
+		// ("an expression where a single :value is required")
+		if nx := p.peek(); nx.kind == tPlus || nx.kind == tMinus || nx.kind == tLParen || nx.kind == tDot || nx.kind == tLBracket || nx.kind == tOp {
+			return Action{}, serr(ReasonPathAsValue, "%s takes a single :value operand, got an expression continuing with %q at %d", kind, nx.text, nx.pos)
+		}
 		return Action{Path: path, Value: ValueRef{v.text}}, nil
 	}
 }
